@@ -157,6 +157,18 @@ class Prop(object):
         probs = []
         known = w.known_keys()
         try:
+            # reading is reading: after every readable attribute of the key, its identities, subkeys and signatures has been read the key exports
+            # what it exported before; and a deep copy is the same key
+            b0 = bytes(w.key)
+            r.transitions += H.read_everything(w.key)
+            if bytes(w.key) != b0:
+                probs.append(('reading-changes-key', 'after all readable attributes of the key and its components were read, the key exports other octets'))
+            import copy as _copy0
+            try:
+                if bytes(_copy0.deepcopy(w.key)) != b0:
+                    probs.append(('deep-copy', 'copy.deepcopy of the key exports other octets'))
+            except Exception as e:
+                probs.append(('deep-copy', 'copy.deepcopy of the key raises %r' % (e,)))
             forms = [('private export', bytes(w.key), w.key)]
             pub = w.key.pubkey
             forms.append(('public twin', bytes(pub), pub))
